@@ -1,5 +1,6 @@
 import Femio.Model.Numeral
 import Femio.Model.Surface
+import Femio.Model.TextTok
 /-! Wavefront OBJ export / import as femio does it (core Lean only; C10).
 
     `OBJWriter.write` (formats/obj/write_obj.py): one `v x y z` line per node in storage order (the coordinate
@@ -25,13 +26,11 @@ def fBlock (faces : List (List Nat)) : List Line := if faces.isEmpty then [[]] e
 def writeObj (verts : List (List Token)) (blocks : List (List (List Nat))) : List Line :=
   verts.map vLine ++ blocks.flatMap fBlock
 
-def joinTokens : Line → List Char
-  | [] => []
-  | [t] => t
-  | t :: u :: r => t ++ ' ' :: joinTokens (u :: r)
+/-- `' '.join(tokens)` (pandas `to_csv(sep=' ')` for the `v` rows, `"f " + " ".join(...)` for the `f` rows) -/
+def joinTokens (l : Line) : List Char := Femio.Text.joinBlank l
 
 /-- file text: every line terminated by a newline -/
-def render (ls : List Line) : List Char := ls.flatMap fun l => joinTokens l ++ ['\n']
+def render (ls : List Line) : List Char := Femio.Text.unlines (ls.map joinTokens)
 
 def isV : Line → Option (List Token)
   | ['v'] :: c => some c
@@ -46,17 +45,14 @@ def readObj (ls : List Line) : Option (List (List Token) × List (List Nat)) := 
   let fs ← (ls.filterMap isF).mapM fun c => c.mapM parseNat
   pure (ls.filterMap isV, fs)
 
-/-- split on a separator, dropping nothing -/
-def splitOnChar (sep : Char) : List Char → List (List Char)
-  | [] => [[]]
-  | c :: t =>
-    match splitOnChar sep t with
-    | [] => [[]]            -- unreachable
-    | w :: r => if c = sep then [] :: w :: r else (c :: w) :: r
-
-/-- text -> lines of tokens (blank-separated, empty tokens and the empty last line dropped) -/
+/-- text -> lines of tokens as the reader sees them: the non-empty lines between newlines
+    (`StringSeries.read_file`), each split at whitespace (`strip()` + `\s+`, Python's whitespace class); lines
+    without a token are dropped (they match neither `v\s+` nor `f\s+`) -/
 def tokenize (s : List Char) : List Line :=
-  ((splitOnChar '\n' s).map fun l => (splitOnChar ' ' l).filter (· ≠ [])).filter (· ≠ [])
+  ((Femio.Text.fileLines s).map Femio.Text.splitBlank).filter fun l => !l.isEmpty
+
+/-- hypothesis of the character-level round trip: every coordinate numeral is a non-empty whitespace-free token -/
+def vertsOKB (verts : List (List Token)) : Bool := verts.all fun c => c.all Femio.Text.tokOKB
 
 /-- `fem_data.write('obj', …)` of a solid mesh: one `f` block per facet shape the mesh's elements produce -/
 def objOfMesh (nodeIds : List Nat) (blocks : List (List Core.Elem)) (verts : List (List Token)) : Option (List Line) := do
